@@ -293,6 +293,9 @@ def main():
         for k, sm in enumerate(smp[:int(h.opts.get('validate', 4))]):
             rp = os.path.join(rdir, '%s-%s-sample%d.replay' % (prop, h.key, k)); write_replay(rp, h.name, h.params, sm['inputs'], sm.get('uf'))
             nat = run_native(binp, h.name, rp)
+            # a 10 ms sanitizer binary occasionally stalls for > 10 s when the machine is oversubscribed (seen only under
+            # parallel load, never in 1500 sequential runs): one retry with a long timeout before calling it a disagreement
+            if nat['end'] == 'timeout': nat = run_native(binp, h.name, rp, timeout=max(90, int(h.opts.get('hang_s', 10))))
             exp_end = 'done' if sm['end'] == 'done' else sm['end']
             ok = (nat['end'] == 'done' and sm['end'] == 'done' and nat['out'] == [[t, v] for t, v in sm['out']] and nat['reach'] == sm['reach']) or \
                  (sm['end'].startswith('throw:') and nat['end'].startswith('terminate:'))
